@@ -233,6 +233,80 @@ def _conc2(kp, pre, a1, b1, a2, bound=None):
         return x if x else rt.ok()
 
 
+def _victim(kp, pre, a1, a2, same):
+    """P0 is preempted twice, each time by a COMPLETE run of another trash-put: P0 runs to its a1-th shared
+    instant, P1 runs from start to end, P0 makes a2 further system calls, P2 runs from start to end, P0 finishes.
+    same=1: P1 trashes the very path P0 is trashing (one of the two must then fail: its source has vanished),
+    P2 a same-named entry of another directory -- the window in which a failing run cleans up after itself"""
+    with rt.untraced():
+        kinds = CONC_KINDS[kp] + ('file',)
+        pts = shared_points(kp, pre, 3)
+        if len(pts) > 24:
+            return rt.fail('C04:bound-too-small', '%d shared instants; selectors only range over 0..23' % len(pts))
+        if a1 >= len(pts):
+            rt.begin()
+            return rt.ok()
+        world, td = conc_world(kinds, pre, 3)
+        m = W.build_model(world)
+        before = m.snap('/')
+        e = scen.env()
+        dirs = ['/v/d0', '/v/d0' if same else '/v/d1', '/v/d2']
+        procs = [sched.Proc(C('put', ['x'], e, cwd=dirs[j], now='2020-01-0%dT00:00:00' % (j + 1)), 'P%d' % j) for j in range(3)]
+        segs = [(0, pts[a1]), (1, None), (0, a2), (2, None)]
+        rt.begin(('victim', kinds, CONC_PRE[pre], segs, same))
+        sched.run_schedule(m, procs, segs)
+        if max(len(p.log) for p in procs) > 72 + NSTEP:
+            return rt.fail('C04:bound-too-small', 'a process made %d system calls' % max(len(p.log) for p in procs))
+        after = m.snap('/')
+        label = 'victim:%s:%s:%s' % ('+'.join(kinds), CONC_PRE[pre], 'same-path' if same else 'own-paths')
+        desc = '[schedule %r]' % (segs,)
+        for p in procs:
+            if p.result['exc']:
+                return rt.fail('C04:traceback-under-concurrency:' + label, '%s: %s %s' % (p.name, p.result['exc'], desc))
+        n_trashed = 0
+        for src in sorted(set(d + '/x' for d in dirs)):
+            who = [p for p, d in zip(procs, dirs) if d + '/x' == src]
+            payload = scen.sub(before, src)
+            ok_runs = [p for p in who if p.result['exit'] == 0]
+            where = scen.find_equal(after, payload)
+            in_trash = [q for q in where if q.startswith(td + '/files/') and '/' not in q[len(td + '/files/'):]]
+            if len(ok_runs) > 1:
+                return rt.fail('C04:two-runs-claim-one-entry:' + label, '%s all exit 0 for %s %s' % ([p.name for p in ok_runs], src, desc))
+            if ok_runs:
+                n_trashed += 1
+                if len(in_trash) != 1 or scen.sub(after, src) is not None:
+                    return rt.fail('C04:successful-put-lost-its-payload:' + label, '%s exit 0 for %s but the payload is at %r %s' % (ok_runs[0].name, src, where, desc))
+                info = scen.sub(after, td + '/info/' + in_trash[0].rsplit('/', 1)[1] + '.trashinfo')
+                if info is None or info[0] != 'f' or not scen.spec_parse_info(info[2])[0]:
+                    return rt.fail('C04:successful-put-without-info:' + label, '%s %s' % (ok_runs[0].name, desc))
+                if scen.spec_parse_info(info[2])[1] != src[3:]:
+                    return rt.fail('C04:info-belongs-to-other-process:' + label, '%r paired with Path=%r %s' % (in_trash[0], scen.spec_parse_info(info[2])[1], desc))
+            elif where != [src]:
+                return rt.fail('C04:failed-put-moved-payload:' + label, 'no run succeeded for %s, payload at %r %s' % (src, where, desc))
+        removed, added, changed = scen.delta(before, after)
+        if changed:
+            return rt.fail('C04:existing-node-changed:' + label, '%r %s' % (sorted(changed), desc))
+        ents = scen.trash_entries(after, td)
+        old = scen.trash_entries(before, td)
+        new_pairs = [n for n in ents if n not in old]
+        for n in new_pairs:
+            i, pl = ents[n]
+            if i is None or pl is None:
+                return rt.fail('C04:incomplete-pair-left:' + label, '%s: info %s payload %s %s' % (n, i is not None, pl is not None, desc))
+        if len(new_pairs) != n_trashed:
+            return rt.fail('C04:pairs-differ-from-successes:' + label, '%d entries trashed, %d new pairs %s' % (n_trashed, len(new_pairs), desc))
+        return rt.ok()
+
+
+def w_victim(kp: int, pre: int, a1: int, a2: int, same: bool) -> str:
+    """
+    pre: PARTITION is None or (kp == PARTITION[0] and pre == PARTITION[1])
+    pre: 0 <= kp < 5 and 0 <= pre < 4 and 0 <= a1 < 24 and 0 <= a2 < 72
+    post: _ == ''
+    """
+    return _victim(rt.sel(kp, 5), rt.sel(pre, 4), rt.sel(a1, 24), rt.sel(a2, 72), rt.selb(same))
+
+
 def _conc3(kp, pre, a1, b1, c1):
     with rt.untraced():
         kinds = CONC_KINDS[kp] + ('file',)
@@ -351,6 +425,11 @@ def obligations(tier):
            bounds='2 concurrent trash-put; P0 runs to its a1-th shared instant (next system call touches the trash directory), P1 to its b1-th, '
                   'then both complete; every pair of shared instants x 5 kind pairs x 2 (quick) / 4 (thorough) trash-dir pre-states'),
     ]
+    vparts = [(0, 0), (0, 2)] if tier == 'quick' else [(k, p) for k in (0, 1, 2) for p in range(4)]
+    obs.append(CH('W_victim_preempted_twice_by_complete_runs', MOD, 'w_victim', timeout=2400, partitions=vparts, engine='W', regime='selector',
+                  encodes=K.PUT_FUNCS + ['vf.sched replay-stepping'], stubs=K.STUBS,
+                  bounds='3 concurrent trash-put: P0 runs to its a1-th shared instant, P1 completes, P0 makes a2 < 72 further system calls, P2 completes, P0 finishes; '
+                         'P1 trashes P0\'s own path (one of them must fail) or another one; %d kind/pre-state partitions' % len(vparts)))
     if tier == 'thorough':
         obs.append(CH('W_two_processes_2_preemptions', MOD, 'w_conc2', timeout=7000, partitions=parts_q, twin=False,
            engine='W', regime='selector', encodes=K.PUT_FUNCS + ['vf.sched replay-stepping'], stubs=K.STUBS,
